@@ -109,7 +109,8 @@ Record enc_inv (e : encoder) : Prop := {
   inv_number : e_frame_number e = N.of_nat (length (e_frames_rev e));
   inv_min : si_min_fs (e_si e) = fs_min (map snd (frames_info e));
   inv_max : si_max_fs (e_si e) = fs_max (map snd (frames_info e));
-  inv_blocks : Forall (fun n => n < 65536) (map fst (frames_info e)) }.
+  inv_blocks : Forall (fun n => n < 65536) (map fst (frames_info e));
+  inv_fit : counters_fit e }.
 
 Lemma frames_info_cons e b bytes (e' : encoder) :
   length (e_emitted_rev e) = length (e_frames_rev e) ->
@@ -130,7 +131,7 @@ Lemma encoder_encode_inv e b e' :
     e_md5_rev e' = e_md5_rev e /\ e_si e' = update_frame_sizes (e_si e) (N.of_nat (length bytes)) /\
     (match si_total (e_si e) with Some t => e_samples_written e' <= t | None => True end).
 Proof.
-  intros I H Hb [Fs Fb]. unfold encoder_encode in H.
+  intros I H Hb Hfit. pose proof Hfit as [Fs Fb]. unfold encoder_encode in H.
   apply bind_ok in H. destruct H as (wr & Hw & H).
   destruct (match si_total (e_si e) with Some t => (t <? wr) | None => false end) eqn:Ht; [discriminate|].
   destruct (8 <? N.of_nat (length b)); [discriminate|].
@@ -168,6 +169,7 @@ Proof.
       rewrite Fi, map_app. cbn [map snd]. rewrite fs_max_snoc, <- (inv_max e I).
       unfold update_frame_sizes, qualifies. destruct (_ && _ && _); reflexivity.
     + rewrite Fi, map_app. apply Forall_app. split; [apply (inv_blocks e I)|]. constructor; auto.
+    + exact Hfit.
   - exists bytes. repeat split; auto.
     destruct (si_total (e_si e)) as [t|]; [|trivial]. change (e_samples_written e') with wr.
     destruct (N.ltb_spec t wr); [discriminate|lia].
